@@ -103,12 +103,25 @@ pub fn generate_cases(cfg: &Cfg) -> i32 {
     let mut made = 0;
     for i in 0..n {
         let GenOutcome::Ok(c) = generated(cfg.seed, "C20", i, &gc) else { continue };
-        let src = c.src.clone().unwrap();
         let mut rng = Rng::derive(cfg.seed, "C20-inputs", i);
+        // every other program gets mixed-case identifiers (paths typed by the user are case-sensitive), and some
+        // sources start with blank lines and/or a byte-order mark (line numbers in messages must still be right)
+        let (c, name_prefix) = if i % 2 == 1 && c.ast.is_some() {
+            let p2 = crate::r#gen::rename::prefix_program(c.ast.as_ref().unwrap(), "Up_");
+            match crate::programs::compile_ast(&format!("{}-mixed-case", c.name), p2, Default::default()) {
+                GenOutcome::Ok(c2) => (c2, "Up_k"),
+                _ => (c, "k"),
+            }
+        } else {
+            (c, "k")
+        };
+        let lead_blank = rng.pick(&["", "", "\n", "\n\n\n", "  \n\t\n"]).to_string();
+        let bom = if rng.chance(1, 4) { "\u{feff}" } else { "" };
+        let src = format!("{lead_blank}{}", c.src.clone().unwrap());
         // the tool's own compilation (with the file name, count_all_visits as the tool passes it)
         let opts = CompilerOptions { count_all_visits: true, source_filename: Some("prog.ink".to_string()) };
         let Ok(lib_json) = Compiler::with_options(opts.clone()).compile(&src) else { continue };
-        let knots: Vec<String> = c.info.knots.iter().filter(|k| k.starts_with('k')).cloned().collect();
+        let knots: Vec<String> = c.info.knots.iter().filter(|k| k.starts_with(name_prefix)).cloned().collect();
         let mut scripts: Vec<Value> = Vec::new();
         for s in 0..4 {
             let mut inputs: Vec<String> = Vec::new();
@@ -151,8 +164,9 @@ pub fn generate_cases(cfg: &Cfg) -> i32 {
         };
         let cdir = format!("{dir}/case-{i}");
         let _ = std::fs::create_dir_all(&cdir);
-        let _ = std::fs::write(format!("{cdir}/prog.ink"), &src);
-        let _ = std::fs::write(format!("{cdir}/bad.ink"), &bad);
+        // the files the tool reads may start with a byte-order mark; the library is given the text without it
+        let _ = std::fs::write(format!("{cdir}/prog.ink"), format!("{bom}{src}"));
+        let _ = std::fs::write(format!("{cdir}/bad.ink"), format!("{bom}{bad}"));
         let _ = std::fs::write(format!("{cdir}/lib.json"), &lib_json);
         let case = json!({"name": c.name, "scripts": scripts, "bad_error": bad_err, "bad_line_inserted": breaker, "bad_at_line": at + 1});
         let _ = std::fs::write(format!("{cdir}/case.json"), serde_json::to_string_pretty(&case).unwrap());
